@@ -450,12 +450,152 @@ def r13_3(ctx, R):
     ctx.floor("R13.3", "drain-functions", n, 1)
 
 
+def _cursor_only_moved_down(ctx, b, fl, val, cur_field):
+    """The stored value is the old cursor, possibly decreased: `cursor - k` / `cursor.saturating_sub(k)`, or a local that starts as
+    a copy of the cursor and is otherwise only decremented -- in this body or in a closure that borrows it mutably (the `retain`
+    closure that counts the removed groups in front of the cursor).  Such a store keeps pointing at the same logical group; it
+    can never restart the turn at group 0 while groups in front are still there."""
+    def is_cursor(e, depth=0):
+        e = strip_refs(e)
+        if e[0] == "proj" and e[2] and e[2][-1] == cur_field:
+            return True
+        if e[0] == "multi" and depth < 3:
+            ds = fl.defs.get(e[1], [])
+            return bool(ds) and all(k == "assign" and is_cursor(fl.rvalue_expr(n["rv"], db), depth + 1) for (db, ix, k, n) in ds)
+        return False
+
+    def down(e):
+        e = strip_refs(e)
+        if e[0] == "proj" and e[2] == (".0",) and e[1][0] == "binop" and e[1][1].startswith("Sub"):
+            return True
+        if e[0] == "binop" and e[1].startswith("Sub"):
+            return True
+        return e[0] == "call" and re.search(r"<impl usize>::(saturating_sub|wrapping_sub|checked_sub)$", e[1] or "") is not None
+    v = strip_refs(val)
+    if is_cursor(v):
+        return True
+    if down(v):
+        a0 = v[1][2] if v[0] == "proj" else (v[2] if v[0] == "binop" else v[2][0])
+        return is_cursor(a0)
+    if v[0] != "multi":
+        return False
+    l = v[1]
+    seeded_ = False
+    for (db, ix, k, n) in fl.defs.get(l, []):
+        if k != "assign":
+            return False
+        e = fl.rvalue_expr(n["rv"], db)
+        if is_cursor(e):
+            seeded_ = True
+        elif not (down(e) and ("multi", l) in (strip_refs(x) for x in ([e[1][2]] if e[0] == "proj" else [e[2]] if e[0] == "binop" else [e[2][0]]))):
+            return False
+    if not seeded_:
+        return False
+    # mutable borrows of the local captured by closures: those closures may only step it down
+    refs = set()
+    for bb in range(b.n):
+        for s_ in b.stmts(bb):
+            if s_["k"] == "assign" and s_["rv"]["k"] == "ref" and s_["rv"].get("mut") and s_["rv"]["place"]["l"] == l and not s_["rv"]["place"]["p"]:
+                refs.add(s_["place"]["l"])
+    for bb in range(b.n):
+        for s_ in b.stmts(bb):
+            if s_["k"] == "assign" and s_["rv"]["k"] == "aggregate" and s_["rv"].get("agg") == "closure":
+                for k_, o in enumerate(s_["rv"]["ops"]):
+                    if o["k"] in ("move", "copy") and not o["place"]["p"] and o["place"]["l"] in refs:
+                        cb = ctx.facts.bodies.get(s_["rv"]["closure"])
+                        if cb is None:
+                            return False
+                        cfl = ctx.flow(cb)
+                        for (sbb, si, st) in cfl.stores:
+                            if si == "term":
+                                continue
+                            pl = st["place"]
+                            fs = [e_ for e_ in pl["p"] if e_["k"] == "field"]
+                            if pl["l"] == 1 and fs and fs[0]["i"] == k_:
+                                if not down(cfl.rvalue_expr(st["rv"], sbb)):
+                                    return False
+    return True
+
+
+def r13_4(ctx, R):
+    ctx.rule("R13.4", "who may reset the round-robin cursor: the group cursor of an unbounded collection is advanced by its poll_next "
+                      "and initialised by its constructors. Any other function of the type that stores a CONSTANT into it (a `retain`, "
+                      "a `shrink` ending in `cursor = 0`) restarts the turn between polls -- a consumer that calls it between polls "
+                      "keeps serving the first groups and starves the later ones -- unless the store is poll_next's own wrap (behind "
+                      "`cursor >= groups.len()`), or the function leaves at most one group behind (clear / truncate(<=1)), or the "
+                      "groups of that collection were handed away whole (Vec::append / mem::take). Relative adjustments (+= groups "
+                      "inserted in front, -= groups released in front) are not decided")
+    from groups import cursor_events
+    from c01 import group_loop_fns
+    from lib_flow import self_field_stores
+    n = 0
+    for gl in group_loop_fns(ctx):
+        ce = cursor_events(ctx, R, gl)
+        m = re.match(r"^<([\w:]+)<", gl.path)
+        if ce is None or not m:
+            continue
+        cur_field, ty = ce[0], m.group(1)
+        n += 1
+        for b in ctx.facts.fn_bodies():
+            if b.path == gl.path or b.kind == "Closure":
+                continue
+            if not (b.path.startswith(ty + "::") or b.path.startswith("<" + ty + "<") or b.path.startswith("<" + ty + " ")):
+                continue
+            if re.match(re.escape(ty) + r"<", b.locals[0] or ""):
+                continue          # returns the collection: a constructor
+            fl = ctx.flow(b)
+            sts = [(bb, i, val) for (bb, i, fld, val, root, pe) in self_field_stores(b, fl) if fld == cur_field]
+            if not sts:
+                continue
+            shrinks = False
+            for bb, t, fn in direct_sites(b, r"alloc::vec::Vec::<.*>::(clear|truncate)$"):
+                if (fn_name(fn) or "").endswith("::clear"):
+                    shrinks = True
+                else:
+                    a = fl.operand_expr(t["args"][1])
+                    shrinks = shrinks or (a[0] == "const" and str(a[2]) in ("0", "1"))
+            for bb, i, val in sts:
+                # only a RESET is decided: a store of a constant restarts the turn. A relative adjustment (`cursor += moved` after
+                # groups were inserted in front of it, `cursor -= released`) keeps designating a group of the same neighbourhood;
+                # whether it is the right amount is not decided here (no alarm)
+                v_ = strip_refs(val)
+                if v_[0] != "const":
+                    continue
+                # the wrap `poll_next` itself performs: cursor := 0 behind `cursor >= len` (the cursor designates no group)
+                wrapped = False
+                for sb in range(b.n):
+                    for tgt, labs in fl.edge_labels(sb).items():
+                        for lab in labs:
+                            if lab[0] == "bool" and lab[2] is True and lab[1][0] == "binop" and lab[1][1] in ("Ge", "Eq", "Gt") and b.dominates(tgt, bb) \
+                                    and len(b.pred[tgt]) == 1:
+                                l_, r_ = strip_refs(lab[1][2]), strip_refs(lab[1][3])
+                                if l_[0] == "proj" and l_[2] and l_[2][-1] == cur_field and r_[0] == "call" and re.search(r"Vec::<.*>::len$", r_[1] or ""):
+                                    wrapped = True
+                # the collection whose cursor is written had its groups handed away whole (`Vec::append(&mut dst, &mut self.groups)`,
+                # `mem::take`): nothing is left to take turns
+                root = None
+                pe_ = fl.place_expr(b.stmts(bb)[i]["place"]) if isinstance(i, int) else None
+                emptied = False
+                if pe_ is not None:
+                    base = strip_refs(pe_[1]) if pe_[0] == "proj" else None
+                    for abb, at, afn in direct_sites(b, r"alloc::vec::Vec::<.*>::append$|core::mem::take$"):
+                        a_ = strip_refs(fl.operand_expr(at["args"][-1]))
+                        if a_[0] == "proj" and strip_refs(a_[1]) == base and a_[2] and a_[2][-1].startswith("."):
+                            emptied = True
+                follows = wrapped or emptied or _cursor_only_moved_down(ctx, b, fl, val, cur_field)
+                ctx.ob("R13.4", b, "cursor-written-outside-poll_next@%s" % _site_label(b, bb), shrinks or follows, b.loc(bb),
+                       "%s := %s; the function leaves at most one group: %s; the new value is the old cursor moved down only (it follows "
+                       "groups that were removed in front of it): %s" % (cur_field, expr_str(val)[:60], shrinks, follows))
+    ctx.floor("R13.4", "unbounded-collections-with-a-cursor", n, 2)
+
+
 def run(ctx):
     R = roles(ctx)
     R.pop_fn, R.drain_fn, R.remove_fn
     r13_1(ctx, R)
     r13_2(ctx, R)
     r13_3(ctx, R)
+    r13_4(ctx, R)
     # service order inside one group is the FIFO order of the ready queue only if (a) a child is polled exclusively when
     # its own entry is dequeued and (b) a merged stream that yielded goes back to the TAIL of that queue
     import c01
